@@ -367,7 +367,13 @@ def rand_tmpl(rng, version):
             d['grouped'] = False     # a prohibited use inside a named attribute group is dropped by XSD
         decls.append(d)
     pool = WILDS + (WILDS11 if version == '1.1' else [])
-    return {'decls': decls, 'wild': rng.choice(pool), 'afd': afd, 'gwild': rng.choice(pool) if rng.random() < 0.3 else None}
+    tmpl = {'decls': decls, 'wild': rng.choice(pool), 'afd': afd, 'gwild': rng.choice(pool) if rng.random() < 0.3 else None}
+    if tmpl['gwild'] is not None and rng.random() < 0.5:
+        # focused pairs: a namespace list against ##other / ##any / another list
+        forms = ['##other', '##any', '##local ' + FNS, TNS + ' ' + FNS, '##local', '##targetNamespace', FNS]
+        tmpl['wild'] = (rng.choice(forms), rng.choice(['strict', 'lax', 'skip']))
+        tmpl['gwild'] = (rng.choice(forms), rng.choice(['strict', 'lax', 'skip']))
+    return tmpl
 
 
 def rand_instance(rng, tmpl):
